@@ -30,7 +30,7 @@ var c14Slots = []string{"csv", "html:A", "html:B", "json", "markdown", "text:utf
 const c14MainSlots = 10
 
 type C14Render struct {
-	Slot int `json:"slot"` // -1: not a render but a cell appended to row AddRow of the table (see Add)
+	Slot int `json:"slot"` // -1: not a render but a cell appended to row AddRow of the table (see Add); -2: the caller changes an item in place (see Mut)
 	// Fresh: 0 reuse this slot's wrapper (text slots: ONE TextTable switched between decorations), 1 new Wrap,
 	// 2 package-level / auto entry, 3 RenderTo of the reused wrapper into a failing writer (not judged; what
 	// follows is), 4 auto.Render around the dedicated reused wrapper of slot Over with this slot's style,
@@ -41,6 +41,9 @@ type C14Render struct {
 	// rendered afterwards is compared with a fresh table built WITH that cell
 	AddRow int       `json:"add_row,omitempty"`
 	Add    *ItemSpec `json:"add,omitempty"`
+	// Slot == -2: the application changes the state of a mutable item the table
+	// holds (c14_r6.go), and does or does not ask the cell to Update
+	Mut *C14Mut `json:"mut,omitempty"`
 }
 
 type C14Spec struct {
@@ -142,6 +145,7 @@ func init() {
 		Rule: "a table (fixed shapes + random; optionally with user properties on the table, every column incl. column 0, rows and cells, and a pre-existing error) is rendered by a sequence of renders over 9 slots " +
 			"(csv, html with two different Id/Class/Caption/row-class settings from ONE reused HTMLTable, json, markdown, text in 4 decorations), each through the slot's reused wrapper, a fresh Wrap or a package-level/auto entry point; " +
 			"further slots: a hand-written decoration never passed through Populate, and four style strings that abbreviate several registered names (12 renders each through every route); runs of adjacent separators; each slot's own long-lived wrapper, auto applied around another slot's long-lived wrapper, a row shared with a second table; " +
+			"round 6: tables of items of every kind (all 32 method sets of the mutable objects) whose items are changed in place - text, Go-syntax text, error text, declared sizes - before and between renders, with and without Update of the cell, in header and body cells (all 10x10 slot pairs exhaustively, random histories otherwise); every render is compared with the same build-and-change history replayed without renders on a fresh table; CSV after a change without Update is judged against the view read before the change; " +
 			"all sequences of length <= 2 over the slots on two tables exhaustively, random sequences of length <= 12 otherwise; observed: every output, and a serialised snapshot (counts, every row/cell text, emptiness, location, size, CellAt, user properties of every owner, Column(n) nil-ness for -1..n+1, error list identity) before and after; " +
 			"non-trivial when at least two renders of some slot happen and the table has a column",
 		Exhaustive: "render sequences of length <= 2 over 9 slots on 2 fixed tables",
@@ -267,6 +271,7 @@ func init() {
 				out = append(out, mustJSON(C14Spec{Table: ts, Props: r.Bool(), Misuse: r.Pct(30), TwoTables: r.Pct(20), Renders: rs}))
 			}
 			out = append(out, c14WorldGen(r, tier)...)
+			out = append(out, c14MutGen(r, tier)...)
 			return out
 		},
 		Run: func(spec json.RawMessage) CaseOut {
@@ -278,7 +283,7 @@ func init() {
 				return c14RunWorld(spec, sp.World)
 			}
 			t := tabular.New()
-			sp.Table.Build(t)
+			objs := sp.Table.buildStaged(t, nil)
 			keys := []interface{}{"uk", userKey{1}, &userKey{2}}
 			if sp.Props {
 				t.SetProperty(keys[0], "table")
@@ -317,6 +322,12 @@ func init() {
 				}
 			}
 			view := extractView(t)
+			// the views the table goes through: a building call or an Update makes a
+			// new one; an item changed in place WITHOUT Update does not (Model/RenderMut.v:
+			// nothing a cell has cached moves), so the CSV renders that follow are
+			// judged against the view as it was before the change
+			views := []string{view.Coq(true)}
+			csvs := []string{"(0%nat, 0%nat)"}
 			before := c14Snapshot(t, keys)
 
 			// reused wrappers, one per format
@@ -391,16 +402,13 @@ func init() {
 			// through a fresh wrapper
 			freshTable := func(epoch int) tabular.Table {
 				ft := tabular.New()
-				sp.Table.Build(ft)
+				fobjs := sp.Table.buildStaged(ft, nil)
 				share(ft)
 				k := 0
 				for _, rd := range sp.Renders {
-					if rd.Slot == -1 && rd.Add != nil && k < epoch {
+					if rd.Slot < 0 && k < epoch {
 						k++
-						if rows := ft.AllRows(); rd.AddRow < len(rows) {
-							it, _ := rd.Add.Make()
-							rows[rd.AddRow].Add(tabular.NewCell(it))
-						}
+						c14ApplyEvent(ft, fobjs, sp.Table, rd)
 					}
 				}
 				return ft
@@ -409,7 +417,7 @@ func init() {
 			first := map[int]Outcome{}
 			epoch := 0
 			for _, rd := range sp.Renders {
-				if rd.Slot == -1 {
+				if rd.Slot < 0 {
 					epoch++
 					continue
 				}
@@ -455,16 +463,23 @@ func init() {
 			count := map[int]int{}
 			epoch = 0
 			after := ""
+			nMut, nUpd := 0, 0
 			for _, rd := range sp.Renders {
-				if rd.Slot == -1 {
-					// the table changes: close the current snapshot pair, apply, open the next
+				if rd.Slot < 0 {
+					// the table (or an item it holds) changes: close the current snapshot pair, apply, open the next
 					after += c14Snapshot(t, keys) + "\x00"
-					if rows := t.AllRows(); rd.Add != nil && rd.AddRow < len(rows) {
-						it, _ := rd.Add.Make()
-						rows[rd.AddRow].Add(tabular.NewCell(it))
+					if c14ApplyEvent(t, objs, sp.Table, rd) {
+						views = append(views, extractView(t).Coq(true))
 					}
 					before += "\x00" + c14Snapshot(t, keys)
 					epoch++
+					csvs = append(csvs, cqPair(cqNat(100*epoch), cqNat(len(views)-1)))
+					if rd.Slot == -2 && rd.Mut != nil {
+						nMut++
+						if rd.Mut.Update {
+							nUpd++
+						}
+					}
 					continue
 				}
 				slot := c14Slots[rd.Slot]
@@ -638,9 +653,10 @@ func init() {
 			if sp.TwoTables {
 				tags = append(tags, "row-shared-with-another-table")
 			}
+			tags = append(tags, c14MutTags(sp, nMut, nUpd)...)
 			return CaseOut{
 				// one table; render id 0 is the CSV render of the table as first built
-				Coq:        fmt.Sprintf("([%s], [(0%%nat, 0%%nat)], %s, %s, %s, %s)", view.Coq(true), cqStr(before), c14After(before, after), cqList(distinct), cqList(renders)),
+				Coq:        fmt.Sprintf("(%s, %s, %s, %s, %s, %s)", cqList(views), cqList(csvs), cqStr(before), c14After(before, after), cqList(distinct), cqList(renders)),
 				Desc:       desc,
 				Size:       sp.Table.Size()*20 + len(sp.Renders),
 				Tags:       tags,
